@@ -391,9 +391,18 @@ func c11Worker(ctx *rt.Ctx, job *rt.Job) []*rt.Violation {
 			exact := anyLists(vals3, need, need)
 			wrong := [][]any{{}, {"1"}}
 			pool := append(append([][]any{}, exact...), wrong...)
-			idx := make([]int, a.Seq)
-			for {
-				seq := make([][]any, a.Seq)
+			seqLen := a.Seq
+			if len(pool) > 40 && seqLen > 2 {
+				seqLen = 2 // 3 placeholders over 5 values: 127 lists; sequences of two executions there
+			}
+			idx := make([]int, seqLen)
+			expired := false
+			for it := 0; ; it++ {
+				if it%256 == 255 && ctx.Expired() {
+					expired = true
+					break
+				}
+				seq := make([][]any, seqLen)
 				for i, j := range idx {
 					seq[i] = pool[j]
 				}
@@ -403,7 +412,7 @@ func c11Worker(ctx *rt.Ctx, job *rt.Job) []*rt.Violation {
 				if !run(c11Case{Kind: "query", Tree: t, GroupBy: []string{"g"}, Args: seq}) {
 					return vs
 				}
-				p := a.Seq - 1
+				p := seqLen - 1
 				for p >= 0 {
 					idx[p]++
 					if idx[p] < len(pool) {
@@ -416,7 +425,7 @@ func c11Worker(ctx *rt.Ctx, job *rt.Job) []*rt.Violation {
 					break
 				}
 			}
-			if ctx.Expired() {
+			if expired || ctx.Expired() {
 				ctx.Cov.Cap("deadline in sequences")
 				break
 			}
